@@ -499,6 +499,7 @@ def main():
         known_findings_seen=known_seen,
         not_observed=inconclusive,
         informational_configurations=informational,
+        exhaustive_subspaces=P.get("exhaustive_subspaces", {}).get(tier, []),
         exhaustive=False,
     )
     if prop == "C07":
